@@ -55,7 +55,7 @@ package couchbase
 //@ modifies calls("gocbcore.(*DCPAgent).OpenStream"), calls("couchbase.(*client).GetFailOverLogs"), calls("gocbcore.(*DCPAgent).GetFailoverLog"), calls(couchbase.AsyncOp.Wait), calls(gocbcore.PendingOp.Cancel), calls(select.case)
 
 //@ func (*client).OpenStream
-//@ props C02 C08 C20
+//@ props C02 C06 C08 C20
 //@ requires s != nil && s.dcpAgent != nil && offset != nil && offset.SnapshotMarker != nil
 //@ let cb = darg("gocbcore.(*DCPAgent).OpenStream", 0, cb)
 //@ let got = chbuf(ch, 0)
